@@ -47,7 +47,7 @@ PROPS = {
         gen=[dict(module="Gen_Framing", cfg="Gen_Framing.cfg", cfg_thorough="Gen_Framing_thorough.cfg", out="framing_cases.ndjson"),
              dict(module="Gen_Edns", cfg="Gen_Edns.cfg", out="edns_cases.ndjson")],
         topic="framing",
-        rules=["NoPanic", "EnvelopeErr", "ParseEqRef"],
+        rules=["NoPanic", "EnvelopeErr", "ParseEqRef", "EntryAligned"],
         shards=12,
     ),
     "C02": dict(
@@ -69,10 +69,12 @@ PROPS = {
     "C06": dict(
         mc=["MC_NameWire"],
         never_ok=["OOBRead"],   # the out-of-bounds read must be unreachable in the (repaired) design
-        gen=[dict(module="Gen_NameWire", cfg="Gen_NameWire.cfg", cfg_thorough="Gen_NameWire_thorough.cfg", out="name_cases.ndjson")],
-        topic="name",
-        rules=["NoPanic", "NameRef", "NameMustErr"],
-        shards=12,
+        runs=[dict(topic="name", shards=12,
+                   gen=[dict(module="Gen_NameWire", cfg="Gen_NameWire.cfg", cfg_thorough="Gen_NameWire_thorough.cfg", out="name_cases.ndjson")]),
+              # names inside the RDATA of every name-bearing type, plain and pointer-compressed by a third party
+              dict(topic="rdata", shards=12,
+                   gen=[dict(module="Gen_RData", cfg="Gen_RData.cfg", cfg_thorough="Gen_RData_thorough.cfg", out="rdata_cases.ndjson")])],
+        rules=["NameNoPanic", "NameRef", "NameMustErr", "NameSiteAligned"],
     ),
     "C10": dict(
         gen=[dict(module="Gen_RData", cfg="Gen_RData.cfg", cfg_thorough="Gen_RData_thorough.cfg", out="rdata_cases.ndjson")],
@@ -102,7 +104,8 @@ PROPS = {
     "C13": dict(
         mc=["MC_Store"],
         gen=[dict(module="Gen_Store", cfg="Gen_Store_reply.cfg", out="store_cases.ndjson",
-                  simulate=dict(quick="num=1500", thorough="num=30000", depth=30))],
+                  simulate=dict(quick="num=1500", thorough="num=30000", depth=30)),
+             dict(module="Gen_Store", cfg="Gen_Store_matrix.cfg", out="store_matrix.ndjson")],
         topic="store",
         rules=["NoPanic", "ReplyUpper", "ReplyLower", "ReplyAddl", "ReplyMeta", "ReplyNone"],
         shards=14,
